@@ -370,7 +370,7 @@ def json_field(ty, v):
     if m:
         if not (isinstance(v, tuple) and v[0] == "int"):
             return None, "not an integer literal"
-        if v[1] == "-0" and m.group(2) != "128":
+        if v[1] == "-0" and b != "i128":
             return None, "negative zero (serde_json reads -0 as a float)"
         n = int(v[1])
         lo, hi = int_range(b)
